@@ -411,6 +411,7 @@ type env interface {
 	other(th *thread, seq int) string      // an admission by ANOTHER client through the same service instance ("" = ran)
 	victimClosed(name string) bool         // the evicted item's resources were released
 	revoke(th *thread, name string) string // give the item back through the service, gated ("" = the call returned)
+	touch(th *thread, revoke bool) string  // read-modify-write of the record of item 0: usage update / revocation
 	close()
 }
 
@@ -424,6 +425,7 @@ type base struct {
 func (b *base) other(*thread, int) string     { return "err:no-other-client" }
 func (b *base) victimClosed(string) bool      { return true }
 func (b *base) revoke(*thread, string) string { return "err:no-revoke" }
+func (b *base) touch(*thread, bool) string    { return "err:no-touch" }
 func (b *base) close()                        { b.cancel() }
 
 func errTok(err error) string {
@@ -1277,8 +1279,19 @@ func (s *gatedMapSvc) CreatePortMapping(m *models.PortMapping) (*models.PortMapp
 	s.g.enter()
 	return s.in.CreatePortMapping(m)
 }
+
+// For the requests that read-modify-write ONE mapping record (usage update, revocation) the return of
+// Get is a gate: the read and the write-back are separate steps.  The activation path does not use Get.
+func (s *gatedMapSvc) rmw() bool {
+	th := s.g.me()
+	return th != nil && (th.curOp == 'u' || th.curOp == 'w')
+}
 func (s *gatedMapSvc) GetPortMapping(id string) (*models.PortMapping, error) {
-	return s.in.GetPortMapping(id)
+	m, err := s.in.GetPortMapping(id)
+	if s.rmw() {
+		s.g.enter() // the copy has been read; the write-back is the next step
+	}
+	return m, err
 }
 func (s *gatedMapSvc) UpdatePortMapping(m *models.PortMapping) error {
 	return s.in.UpdatePortMapping(m)
@@ -1434,6 +1447,18 @@ func (e *mapqEnv) digest() string {
 	sort.Strings(ks)
 	return strings.Join(ks, "\x00")
 }
+func (e *mapqEnv) touch(th *thread, revoke bool) string {
+	e.mu.Lock()
+	id := e.ids["p0"]
+	e.mu.Unlock()
+	// success or error: what the request did to the quota state is observed
+	if revoke {
+		_ = e.svcs[th.inst].RevokeMapping(id, listenClient, "h")
+	} else {
+		_ = e.svcs[th.inst].RecordMappingUsage(id)
+	}
+	return ""
+}
 func (e *mapqEnv) other(th *thread, seq int) string {
 	code, err := e.freshCode()
 	if err != nil {
@@ -1544,6 +1569,11 @@ func parseCase(s string) (*kase, bool) {
 				case "o":
 					if k.proto != "code" && k.proto != "mapq" {
 						t.e = true // only the per-client quotas have other clients
+					}
+					th.ops = append(th.ops, c[0])
+				case "u", "w":
+					if k.proto != "mapq" || k.pre == 0 {
+						t.e = true // usage update / revocation of the mapping p0
 					}
 					th.ops = append(th.ops, c[0])
 				case "v", "v0", "v1", "v2", "v3", "v4":
@@ -1697,6 +1727,15 @@ func execCase(cs string) (obs string) {
 			}
 			g.mu.Unlock()
 			switch o {
+			case 'u', 'w':
+				et := e.touch(th, o == 'w')
+				g.mu.Lock()
+				if et != "" {
+					th.res = et
+				} else {
+					th.res = "rvk"
+				}
+				g.mu.Unlock()
 			case 'v':
 				own := th.own
 				et := ""
@@ -1786,7 +1825,7 @@ func execCase(cs string) (obs string) {
 				evs = append(evs, fmt.Sprintf("blk.%d.%d", tid, e.occupancy()))
 				continue
 			}
-			if th.waited && !atStart && fusedLock {
+			if th.waited && !atStart && (fusedLock || th.curOp == 'u' || th.curOp == 'w') {
 				// the request was handed the lock and ran on by itself to its first gate inside the
 				// critical section: that was its entry step
 				th.waited = false
@@ -1828,7 +1867,7 @@ func execCase(cs string) (obs string) {
 					next++
 					th.announced = grown[0]
 					evs = append(evs, fmt.Sprintf("adm.%d.%d.-.%d", tid, num[grown[0]], n))
-				case th.curOp == 'v' && len(gone) == 1 && len(grown) == 0:
+				case (th.curOp == 'v' || th.curOp == 'w') && len(gone) == 1 && len(grown) == 0:
 					evs = append(evs, fmt.Sprintf("rel.%d.%d.%d", tid, num[gone[0]], n))
 				case res == "rvk":
 					evs = append(evs, fmt.Sprintf("stp.%d.%d", tid, n))
